@@ -296,10 +296,13 @@ impl<'a, 'doc, 'schema, R: RandomProvider> ResponseBuilder<'a, 'doc, 'schema, R>
 
             let val = if meta_field.name == TYPENAME {
                 Value::String(concrete.to_string().into())
-            } else if !meta_field.ty().is_non_null() && self.should_be_null()? {
-                Value::Null
             } else {
-                self.generate_field_value(&fields, meta_field)?
+                let field_ty = self.concrete_field_type(concrete, meta_field);
+                if !field_ty.is_non_null() && self.should_be_null()? {
+                    Value::Null
+                } else {
+                    self.generate_value_of_type(&fields, meta_field, &field_ty)?
+                }
             };
 
             result.insert(key, val);
@@ -308,13 +311,14 @@ impl<'a, 'doc, 'schema, R: RandomProvider> ResponseBuilder<'a, 'doc, 'schema, R>
         Ok(Value::Object(result))
     }
 
-    /// Generate the value for a (possibly merged) field group.
-    fn generate_field_value(
-        &mut self,
-        fields: &[Node<Field>],
-        meta_field: &Node<Field>,
-    ) -> Result<Value, ResponseError> {
-        self.generate_value_of_type(fields, meta_field, meta_field.ty())
+    /// The type of the field as declared by the concrete object type being generated. It may be
+    /// non-null, or narrower, than the declaration the selection was validated against (for
+    /// example the interface's), and it is the one an executor completes the value with.
+    fn concrete_field_type(&self, concrete: &Name, meta_field: &Node<Field>) -> Type {
+        self.schema
+            .type_field(concrete, &meta_field.name)
+            .map(|def| def.ty.clone())
+            .unwrap_or_else(|_| meta_field.ty().clone())
     }
 
     /// Generate a value of type `ty` for a field group: one JSON array per list level of the
@@ -344,7 +348,7 @@ impl<'a, 'doc, 'schema, R: RandomProvider> ResponseBuilder<'a, 'doc, 'schema, R>
                         merged_selections.extend_from_slice(&field.selection_set.selections);
                     }
                     let full_selection_set = SelectionSet {
-                        ty: meta_field.selection_set.ty.clone(),
+                        ty: name.clone(),
                         selections: merged_selections,
                     };
                     self.selection_set(&full_selection_set)
@@ -374,10 +378,13 @@ impl<'a, 'doc, 'schema, R: RandomProvider> ResponseBuilder<'a, 'doc, 'schema, R>
                 Value::String(concrete.to_string().into())
             } else if let Some(overlay_value) = overlay.get(key.as_str()) {
                 self.overlaid_value(&fields, meta_field, overlay_value)?
-            } else if !meta_field.ty().is_non_null() && self.should_be_null()? {
-                Value::Null
             } else {
-                self.generate_field_value(&fields, meta_field)?
+                let field_ty = self.concrete_field_type(concrete, meta_field);
+                if !field_ty.is_non_null() && self.should_be_null()? {
+                    Value::Null
+                } else {
+                    self.generate_value_of_type(&fields, meta_field, &field_ty)?
+                }
             };
 
             result.insert(key, val);
